@@ -1,0 +1,73 @@
+//go:build verif
+
+package filecache
+
+import (
+	"io"
+	"os"
+	"strconv"
+	"strings"
+)
+
+// Named points between the steps of fileCache.Add.
+//
+//   - VerifHook, when set by an in-process harness, receives every point (it may block: scheduler gate).
+//   - VERIF_FC_TRACE=<file> appends the point names to a file (one per line).
+//   - VERIF_FC_CRASH=<point> terminates the process with exit status 77 when that point is reached;
+//     "mid-copy:<k>" terminates after k bytes of the entry have been written.
+
+// VerifHook receives each named point synchronously.
+var VerifHook func(point string)
+
+func verifPoint(name string) {
+	if h := VerifHook; h != nil {
+		h(name)
+	}
+	if f := os.Getenv("VERIF_FC_TRACE"); f != "" {
+		if fh, err := os.OpenFile(f, os.O_APPEND|os.O_CREATE|os.O_WRONLY, 0o644); err == nil {
+			_, _ = fh.WriteString(name + "\n")
+			_ = fh.Close()
+		}
+	}
+	if os.Getenv("VERIF_FC_CRASH") == name {
+		os.Exit(77)
+	}
+}
+
+// verifReader delivers the entry in small chunks so that a crash can be placed inside the copy.
+func verifReader(r io.Reader) io.Reader {
+	c := os.Getenv("VERIF_FC_CRASH")
+	if !strings.HasPrefix(c, "mid-copy:") && VerifHook == nil {
+		return r
+	}
+	k := -1
+	if strings.HasPrefix(c, "mid-copy:") {
+		k, _ = strconv.Atoi(c[len("mid-copy:"):])
+	}
+	return &chunkReader{r: r, crashAt: k}
+}
+
+type chunkReader struct {
+	r       io.Reader
+	n       int
+	crashAt int
+}
+
+func (c *chunkReader) Read(p []byte) (int, error) {
+	if c.crashAt >= 0 && c.n >= c.crashAt {
+		os.Exit(77)
+	}
+	max := 64
+	if c.crashAt >= 0 && c.crashAt-c.n < max {
+		max = c.crashAt - c.n
+	}
+	if len(p) > max {
+		p = p[:max]
+	}
+	n, err := c.r.Read(p)
+	c.n += n
+	if n > 0 {
+		verifPoint("mid-copy")
+	}
+	return n, err
+}
